@@ -320,13 +320,16 @@ def recvDone (σ : St) (t : Nat) (r : Res) (j : Nat) : St :=
   | .recv | .recvView | .futRecvView =>
       match r with
       | .okv v => if x.outer = .futRecvView || (σ.hs x.g).fut then (σ.setTh t fun y => { y with v := v }).goto t (.nf true 5) else σ.goto t (.ret (.okv v))
-      | .disc => if x.outer = .futRecvView then (σ.setTh t fun y => { y with v := 0 }).goto t (.nf true 7) else σ.goto t (.ret .disc)
+      | .disc => if x.outer = .futRecvView || (σ.hs x.g).fut then (σ.setTh t fun y => { y with v := 0 }).goto t (.nf true 7) else σ.goto t (.ret .disc)
       | _ => σ.goto t (.w0 j)
   | .poll _ =>
       match r with
       | .okv v => (σ.setTh t fun y => { y with v := v }).goto t (.nf true 4)
       | .disc => σ.goto t (.ret .none_)
-      | _ => σ.goto t (.w0 j)
+      | _ =>
+        -- the shared-stream poll wakes the senders before it waits (a pin may have been given up)
+        if x.outer = Outer.poll false then (σ.setTh t fun y => { y with aux := j }).goto t (.nf true 12)
+        else σ.goto t (.w0 j)
   | .futTryRecvView =>
       match r with
       | .okv v => (σ.setTh t fun y => { y with v := v }).goto t (.nf true 5)
@@ -336,7 +339,8 @@ def recvDone (σ : St) (t : Nat) (r : Res) (j : Nat) : St :=
       if (σ.hs x.g).fut then
         match r with
         | .okv v => (σ.setTh t fun y => { y with v := v }).goto t (.nf true 5)
-        | r => σ.goto t (.ret r)
+        | .disc => σ.goto t (.nf true 7)
+        | _ => σ.goto t (.nf true 8)
       else σ.goto t (.ret r)
 
 /-- a wait finished (check was true): retry the receive -/
@@ -514,6 +518,7 @@ def stepRun (σ0 : St) (t : Nat) (inp : Nat) : Obs × St :=
       | 9 => (o, teardownStart σ2 t (.bool (x.aux = 1)))
       | 10 => (o, σ2.goto t .isg)
       | 11 => (o, σ2.goto t (.ret .multi))
+      | 12 => (o, σ2.goto t (.w0 x.aux))
       | k => (o, afterNotify σ2 t k)
   ---------------------------------------------------------------- recv
   | .r0 =>
